@@ -182,18 +182,18 @@ var logMu sync.Mutex
 
 // censorConfigs: named firewall configurations (YAML understood by AcraCensor.LoadConfiguration).
 var censorConfigs = map[string]string{
-	"none":     "",
-	"allowall": "version: 0.85.0\nhandlers:\n  - handler: allowall\n",
-	"denyall":  "version: 0.85.0\nhandlers:\n  - handler: denyall\n",
-	"denytables": "version: 0.85.0\nhandlers:\n  - handler: deny\n    tables:\n      - t\n      - secret_table\n",
-	"allowtables": "version: 0.85.0\nhandlers:\n  - handler: allow\n    tables:\n      - t\n      - u\n",
-	"denypatterns": "version: 0.85.0\nhandlers:\n  - handler: deny\n    patterns:\n      - select %%COLUMN%% from u %%WHERE%%\n      - \"%%INSERT%%\"\n",
-	"allowqueries": "version: 0.85.0\nhandlers:\n  - handler: allow\n    queries:\n      - select 1 from dual\n",
-	"denyqueries":  "version: 0.85.0\nhandlers:\n  - handler: deny\n    queries:\n      - select a from t where b = 'known'\n",
-	"ignoreparse":  "version: 0.85.0\nignore_parse_error: true\nhandlers:\n  - handler: allowall\n",
+	"none":            "",
+	"allowall":        "version: 0.85.0\nhandlers:\n  - handler: allowall\n",
+	"denyall":         "version: 0.85.0\nhandlers:\n  - handler: denyall\n",
+	"denytables":      "version: 0.85.0\nhandlers:\n  - handler: deny\n    tables:\n      - t\n      - secret_table\n",
+	"allowtables":     "version: 0.85.0\nhandlers:\n  - handler: allow\n    tables:\n      - t\n      - u\n",
+	"denypatterns":    "version: 0.85.0\nhandlers:\n  - handler: deny\n    patterns:\n      - select %%COLUMN%% from u %%WHERE%%\n      - \"%%INSERT%%\"\n",
+	"allowqueries":    "version: 0.85.0\nhandlers:\n  - handler: allow\n    queries:\n      - select 1 from dual\n",
+	"denyqueries":     "version: 0.85.0\nhandlers:\n  - handler: deny\n    queries:\n      - select a from t where b = 'known'\n",
+	"ignoreparse":     "version: 0.85.0\nignore_parse_error: true\nhandlers:\n  - handler: allowall\n",
 	"ignoreparsedeny": "version: 0.85.0\nignore_parse_error: true\nhandlers:\n  - handler: deny\n    tables:\n      - secret_table\n",
-	"queryignore": "version: 0.85.0\nhandlers:\n  - handler: query_ignore\n    queries:\n      - select 1 from dual\n  - handler: denyall\n",
-	"chain": "version: 0.85.0\nhandlers:\n  - handler: deny\n    tables:\n      - secret_table\n  - handler: allow\n    tables:\n      - t\n  - handler: denyall\n",
+	"queryignore":     "version: 0.85.0\nhandlers:\n  - handler: query_ignore\n    queries:\n      - select 1 from dual\n  - handler: denyall\n",
+	"chain":           "version: 0.85.0\nhandlers:\n  - handler: deny\n    tables:\n      - secret_table\n  - handler: allow\n    tables:\n      - t\n  - handler: denyall\n",
 }
 
 // CensorConfigNames in a fixed order (generators pick from it).
